@@ -141,14 +141,16 @@ type Point struct {
 }
 
 type env struct {
-	mu      sync.Mutex
-	choices []int
-	pos     int
-	Points  []Point
-	BadPick string
-	hook    func(label string) // called at every callback boundary (crash points / scheduling)
-	around  string             // directory surrounding the bundle target ("<AROUND>" in link targets)
-	curAdd  int
+	mu        sync.Mutex
+	choices   []int
+	pos       int
+	Points    []Point
+	BadPick   string
+	hook      func(label string) // called at every callback boundary (crash points / scheduling)
+	around    string             // directory surrounding the bundle target ("<AROUND>" in link targets)
+	curAdd    int
+	forceFind int
+	shared    sourcebundle.Diagnostics // the one slice a singleton finder keeps returning
 }
 
 // Choose returns the scripted answer at this point (0 = default).
@@ -156,6 +158,10 @@ func (e *env) Choose(label string, n int) int {
 	e.mu.Lock()
 	defer e.mu.Unlock()
 	c := 0
+	if e.forceFind != 0 && strings.HasPrefix(label, "find ") {
+		e.Points = append(e.Points, Point{label, n, e.forceFind, e.curAdd})
+		return e.forceFind
+	}
 	if e.pos < len(e.choices) {
 		c = e.choices[e.pos]
 	}
@@ -405,7 +411,16 @@ func (f wFinder) find(name string, fsys fs.FS, subPath string, deps *sourcebundl
 			deps.AddLocalSource(src, tf)
 		}
 	}
-	switch f.env.Choose("find "+key, 4) {
+	switch f.env.Choose("find "+key, 5) {
+	case 4:
+		// a finder that keeps one diagnostics value around and returns it every time
+		f.env.mu.Lock()
+		if f.env.shared == nil {
+			f.env.shared = sourcebundle.Diagnostics{wDiag{sev: sourcebundle.DiagWarning, summary: "finder warning", detail: "shared warning", subject: "m/main.tf", extra: 42}}
+		}
+		d := f.env.shared
+		f.env.mu.Unlock()
+		return d
 	case 1:
 		return sourcebundle.Diagnostics{wDiag{sev: sourcebundle.DiagError, summary: "finder error", detail: "detail of " + key, extra: "X1"}}
 	case 2:
@@ -430,6 +445,7 @@ type BuildArg struct {
 	CrashScan bool      `json:"crash_scan,omitempty"`
 	Reopen    bool      `json:"reopen,omitempty"` // also OpenDir + WriteArchive/ExtractArchive (C09)
 	PostUse   bool      `json:"post_use,omitempty"`
+	ForceFind int       `json:"force_find,omitempty"` // every finder call gives this answer (4 = the SAME warning slice every time, as a singleton finder would)
 }
 
 type DiagOut struct {
@@ -770,7 +786,7 @@ func runBuild(arg BuildArg) (out BuildOut) {
 	mkfile(filepath.Join(around, "sibling", "canary"), "C", 0644)
 	mkfile(filepath.Join(around, "target-evil", "canary"), "C", 0644)
 	mkfile(filepath.Join(base, "top-canary"), "C", 0644)
-	e := &env{choices: arg.Choices, around: around}
+	e := &env{choices: arg.Choices, around: around, forceFind: arg.ForceFind}
 	log := &callLog{}
 	var mu sync.Mutex
 	w := arg.World
